@@ -1951,6 +1951,11 @@ class Evaluator(object):
                     # f(*(t1 if c else t2)) with tuples of one length: the conditional components
                     n_ = self._alt_arity(a[1])
                     xargs.extend(self._component(a[1], k, n_) for k in range(n_))
+                elif a[0] == 'star' and a[1][0] == 'comp' and a[1][1] in ('gen', 'list') and len(a[1][3]) == 1 and not a[1][3][0][2] \
+                        and a[1][3][0][1][0] in ('tuple', 'list') and a[1][3][0][1][1] and all(x[0] == 'const' for x in a[1][3][0][1][1]):
+                    # f(*[g(k) for k in ('a', 'b', ...)]) over a literal sequence of constants: g('a'), g('b'), ...
+                    n_ = len(a[1][3][0][1][1])
+                    xargs.extend(self._component(a[1], k, n_) for k in range(n_))
                 elif a[0] == 'star' and a[1][0] == 'call' and self._tuple_arity(a[1]):
                     # f(*g(...)) where g always returns an n-tuple: the n items
                     xargs.extend(('item', a[1], k) for k in range(self._tuple_arity(a[1])))
